@@ -41,7 +41,8 @@ class Pattern(Leaf):
         pat = self.pattern or ""
         # multiline patterns are OK
         pat = trim(pat)
-        if '/' in pat:
+        if '/' in pat or pat == '.':
+            # NOTE: /./ is the Dot atom in the grammar language
             newpat = pat.replace('"', r'\"')
             regex = f'?"{newpat}"'
         else:
